@@ -138,6 +138,18 @@ def run(tier, seed, pid=PID, flavour='plain', n=None, maxpop=2000):
         rt = 'FREQ=HOURLY;UNTIL=%s' % ue.strftime('%Y%m%dT%H%M%SZ')
         c = fam(nf, (y, mo, dd, h, 0, 0), rt, zn); c['until'] = rrgen.inst((ue.year, ue.month, ue.day, ue.hour, ue.minute, ue.second)); c['maxpop'] = 70
         cases.append(c); nf += 1
+    # several times a day and an UNTIL that falls between two of them on a day of the rule, near and far (well beyond a thousand
+    # occurrences): weekly rules, and daily ones with BYDAY (the same filler)
+    for _ in range(300 if tier == 'thorough' else 40):
+        d0 = D.date(rnd.choice([2019, 2020, 2024]), rnd.randint(1, 12), rnd.randint(1, 28))
+        wds = sorted(rnd.sample(range(7), rnd.randint(1, 4)) + [d0.weekday()]); hrs = sorted(rnd.sample(range(24), rnd.randint(2, 4)))
+        far = rnd.choice([0, 1, 3, 40, 330, 520, 700])
+        du = d0 + D.timedelta(weeks=far // max(1, len(set(wds))))
+        while du.weekday() not in wds: du += D.timedelta(1)
+        hu = rnd.choice(hrs[:-1])
+        rt = '%s;BYDAY=%s;BYHOUR=%s;UNTIL=%04d%02d%02dT%02d3000Z' % (rnd.choice(['FREQ=WEEKLY', 'FREQ=WEEKLY', 'FREQ=DAILY']), ','.join(['MO', 'TU', 'WE', 'TH', 'FR', 'SA', 'SU'][w] for w in sorted(set(wds))), ','.join(map(str, hrs)), du.year, du.month, du.day, hu)
+        c = fam(nf, (d0.year, d0.month, d0.day, hrs[0], 0, 0), rt); c['until'] = rrgen.inst((du.year, du.month, du.day, hu, 30, 0)); c['maxpop'] = 2000
+        cases.append(c); nf += 1
     nsl = vlib.NCPU; per = -(-len(cases) // nsl)
     env_asan = flavour == 'asan'
     if env_asan:
